@@ -100,6 +100,11 @@ add("C11", "Hypothesis-generated real-basis expressions with registered intermed
     "hence factor(expand(x)) == x in value independent of the requested subset/order.",
     "Trusted: rspt.py amplitudes/densities (validated against the definitions by C12), definitions of composite intermediates evaluated once per model. Few cases per run (factorisation takes seconds per case).")
 
+add("C19", "Hypothesis-drawn (request, call history, PYTHONHASHSEED, tensor-name configuration) tuples executed in fresh interpreters; differential oracle against the same request with empty history / hash seed 0 / default names (text and F_p value fingerprints)",
+    "Generated-input search over histories of derivation and index requests, five hash seeds and generated tensor_names.json configurations (scratch copy of the package); result text after expand + substitute_contracted (+ simplify), term count and value "
+    "fingerprints on two fixed models must be identical; wavefunctions / norm factors requested twice must not share contracted indices.",
+    "Trusted: subprocess isolation, F_p evaluator, rebuild_names(). ~1-10 s per tuple: tens of tuples per quick run, hundreds in the thorough tier; thread schedules are irrelevant (single-threaded library).")
+
 NOT_YET = "check not built yet in this round (planned, see DESIGN.md)"
 
 def main():
